@@ -806,8 +806,20 @@ func (in *Inst) havocItem(mi ModItem, env *SpecEnv, oldSt, st *State) {
 			st.set(name, e.freshConst("hv", e.compSort(name)))
 		}
 	case modMem:
+		m := st.get("Mem")
 		nm := e.freshConst("Mem", e.compSort("Mem"))
 		e.memVers = append(e.memVers, nm)
+		if len(mi.But) > 0 {
+			pre := env.fork()
+			pre.st = oldSt
+			for _, bx := range mi.But {
+				s := pre.eval(bx)
+				if s.K != KSlc {
+					e.fail("modifies %s: %s is not a slice", mi.Src, exprString(bx))
+				}
+				e.assume(st.reach, sEq(sSel(nm, slcArr(s.T)), sSel(m, slcArr(s.T))))
+			}
+		}
 		st.set("Mem", nm)
 	case modBytes, modSpare:
 		pre := env.fork()
@@ -995,6 +1007,11 @@ func (in *Inst) callAssertsOf(con *Contract, inherited bool, x *ssa.Call, st *St
 			env.atIdx++
 			if v, ok := in.vals[x]; ok {
 				env.vars["result"] = v
+				if v.K == KStruct {
+					for i, f := range v.Fs {
+						env.vars[fmt.Sprintf("result%d", i)] = f
+					}
+				}
 			}
 		}
 		t := in.specBool(ca.Clause.Expr, env)
